@@ -377,7 +377,13 @@ func H_C05_unmarshal_iface(t *verifrt.T) {
 	t.Known("D4-raw-control-character-in-string-accepted", and(accepted, !strict, ctrl))
 	// (D5, an embedded NUL ending the input, is repaired: no relaxation for it)
 	t.Assert("accept-only-listed-language", implies(accepted, lax))
-	t.Assert("valid-json-accepted", implies(strict, accepted))
+	// a number outside the float64 range is an error for this destination in encoding/json too
+	inRange := true
+	if strict {
+		inRange = !verifref.NumberOutOfRange(orig)
+	}
+	t.Assert("valid-json-accepted", implies(verifrt.And(strict, inRange), accepted))
+	t.Cover("out-of-range-number-rejected", verifrt.And(strict, !inRange, !accepted))
 	t.Assert("input-unchanged", verifref.BytesEq(doc, orig))
 	t.Cover("accepted-valid", and(accepted, strict))
 	t.Cover("rejected-invalid", and(!accepted, !lax))
